@@ -2,5 +2,6 @@ SPECIFICATION Spec
 CONSTANTS
   ChecksAddr = TRUE
   ChecksPad = TRUE
+  WithEncoding = FALSE
 INVARIANT Report
 CHECK_DEADLOCK FALSE
